@@ -41,6 +41,7 @@ pub enum N {
     And(Box<N>, Box<N>),        // ((a != 0) && (b != 0) ? 1 : 0): b only if a is non-zero
     Or(Box<N>, Box<N>),         // ((a != 0) || (b != 0) ? 1 : 0): b only if a is zero
     PosMethod(usize, Box<N>, Vec<N>), // recv.hK(args): hK takes K positional parameters and no receiver
+    MapGuard(Vec<N>, i64, Box<N>), // size([..].map(x, t(x) > K, t(x) + body)): guard first, transform only if it holds
 }
 
 fn args_src(a: &[N]) -> String {
@@ -80,6 +81,7 @@ impl N {
             N::And(a, b) => format!("(({} != 0) && ({} != 0) ? 1 : 0)", a.render(), b.render()),
             N::Or(a, b) => format!("(({} != 0) || ({} != 0) ? 1 : 0)", a.render(), b.render()),
             N::PosMethod(k, r, a) => format!("{}.h{k}({})", r.render(), args_src(a)),
+            N::MapGuard(a, k, b) => format!("size([{}].map(x, t(x) > {k}, t(x) + {}))", args_src(a), b.render()),
             N::Conv(k, e) => match k % 8 {
                 0 => format!("int(double({}))", e.render()),
                 1 => format!("int(string({}))", e.render()),
@@ -208,6 +210,19 @@ impl N {
                     (b.eval(log) != 0) as i64
                 }
             }
+            N::MapGuard(a, k, b) => {
+                let vs: Vec<i64> = a.iter().map(|x| x.eval(log)).collect();
+                let mut n = 0;
+                for v in &vs {
+                    log.push(format!("(x74 {})", int(*v)));
+                    if *v > *k {
+                        log.push(format!("(x74 {})", int(*v)));
+                        b.eval(log);
+                        n += 1;
+                    }
+                }
+                n
+            }
             N::PosMethod(k, r, a) => {
                 // the receiver is evaluated (once, first) although hK has no receiver parameter
                 let _ = r.eval(log);
@@ -255,7 +270,13 @@ fn tree(rng: &mut Rng, depth: u32, tag: &mut i64) -> N {
     }
     let d = depth - 1;
     let mut kids = |rng: &mut Rng, n: usize, tag: &mut i64| -> Vec<N> { (0..n).map(|_| { let dd = if rng.chance(1, 2) { d } else { d.min(1) }; tree(rng, dd, tag) }).collect() };
-    match rng.below(22) {
+    match rng.below(23) {
+        22 => {
+            let n = rng.below(4) as usize;
+            let ks: Vec<N> = (0..n).map(|_| leaf(tag)).collect();
+            let k = rng.range(0, *tag + 1);
+            N::MapGuard(ks, k, Box::new(tree(rng, d.min(2), tag)))
+        }
         16 | 17 => {
             let a = tree(rng, d, tag);
             let b = tree(rng, d, tag);
